@@ -493,7 +493,22 @@ func Run[H any](t *testing.T, rec *Rec, draw func(*rapid.T) H, exec func(h H, re
 				inconclusiveOnce.Do(func() { Inconclusive(rec.ID, rec.Unit+": "+inc.Why) })
 				return
 			}
+			first := last == ""
 			last, lastErr = SaveReplay(rec.ID, rec.Unit, h, err), err.Error()
+			if first {
+				// shrinking re-runs the case many times and may outlive the shard's wall-clock
+				// guard (every re-run of a wedge waits for its bound): leave the unshrunk failure
+				// where the driver finds it even then
+				msg := strings.ReplaceAll(lastErr, "\n", " | ")
+				if len(msg) > 600 {
+					msg = msg[:600] + "…"
+				}
+				keep := last + ".first"
+				if b, err := os.ReadFile(last); err == nil {
+					os.WriteFile(keep, b, 0o644)
+				}
+				fmt.Printf("\nVERIF-FIRST-FAILURE property=%s replay=%s msg=%s\n", rec.ID, keep, msg)
+			}
 			rt.Fatalf("%v", err)
 		}
 	})
